@@ -56,6 +56,13 @@ var looseDuringUpload atomic.Value
 func init() { syscall.Umask(0o022) } // the usual umask of a service: modes must come from the code, not from luck
 
 func (f *fakeS3) Do(r *http.Request) (*http.Response, error) {
+	if r.Method != http.MethodPut {
+		// not an upload (a HEAD on the bucket, say): the bucket is there; nothing to record
+		if r.Body != nil {
+			io.Copy(io.Discard, r.Body)
+		}
+		return &http.Response{StatusCode: 200, Header: http.Header{}, Body: io.NopCloser(bytes.NewReader(nil)), Request: r}, nil
+	}
 	if f.stateDir != "" {
 		if es, err := os.ReadDir(f.stateDir); err == nil {
 			for _, e := range es {
